@@ -177,7 +177,7 @@ class Prog:
     def add(s, rs, kind, key='h'):
         o = {'pos': Pos([r.get(key, 0) for r in rs]), 'kind': kind, 'fam': fam(kind), 'alive': True, 'golden': False}; s.objs.append(o); return o
     def pick(s, fams=None, golden=None):
-        c = [o for o in s.objs if o['alive'] and not o.get('diverged') and (fams is None or o['fam'] in fams) and (golden is None or o['golden'] == golden)]
+        c = [o for o in s.objs if o['alive'] and not o.get('diverged') and not o.get('random') and (fams is None or o['fam'] in fams) and (golden is None or o['golden'] == golden)]
         return s.rnd.choice(c) if c else None
     def gold(s, kind):
         for o in s.objs:
@@ -388,7 +388,7 @@ class Prog(Prog):
             m, kind, extra = [('CKM_AES_KEY_GEN', 'aes128', [('CKA_VALUE_LEN', r.choice([16, 24, 32, 17, 0]))]), ('CKM_GENERIC_SECRET_KEY_GEN', 'generic32', [('CKA_VALUE_LEN', r.choice([1, 20, 64, 0]))]), ('CKM_DES3_KEY_GEN', 'des3', [])][c]
             s.unit = f'keygen {m} {extra}'; rs = s.step('C_GenerateKey', m, s=s.S, mech=s.M(m), tmpl=s.T([('CKA_TOKEN', r.random() < 0.2), ('CKA_SENSITIVE', r.random() < 0.5), ('CKA_EXTRACTABLE', r.random() < 0.7), ('CKA_ENCRYPT', True), ('CKA_DECRYPT', True), ('CKA_SIGN', True), ('CKA_VERIFY', True), ('CKA_LABEL', b'generated')] + extra))
             if rs[0]['rvname'] != 'CKR_OK': return
-            o = s.add(rs, kind); s.read_attrs(o['pos'], o['fam'], [a for a in attrs_of(o['fam']) if a not in skip], producer='C_GenerateKey')
+            o = s.add(rs, kind); o['random'] = True; s.read_attrs(o['pos'], o['fam'], [a for a in attrs_of(o['fam']) if a not in skip], producer='C_GenerateKey')   # a different random key per configuration: never an input of byte comparisons
         else:
             m, kind, pub = [('CKM_EC_KEY_PAIR_GEN', r.choice(['ec_p256', 'ec_p384']), None), ('CKM_EC_EDWARDS_KEY_PAIR_GEN', 'ed25519', None)][c - 3]; pub = [('CKA_EC_PARAMS', bytes.fromhex(K.RAW[kind]['CKA_EC_PARAMS']))]
             if not s.has(m): return
